@@ -264,11 +264,15 @@ class C18(Check):
             # (4) BitLengthSet: never unequal for extensionally equal sets
             for k, o in oa:
                 if isinstance(o, pydsdl.BitLengthSet) and (o.max - o.min) <= 2048:
+                    from ..worlds.realcanon import safe_expand
                     try:
-                        explicit = pydsdl.BitLengthSet(set(o))
+                        members = safe_expand(o, 100000)
+                        if members is None:
+                            continue
+                        explicit = pydsdl.BitLengthSet(members)
                     except Exception:
                         continue
-                    if not (o == explicit) or not (explicit == o) or hash(o) != hash(explicit) or not (o == set(o)):
+                    if not (o == explicit) or not (explicit == o) or hash(o) != hash(explicit) or not (o == members):
                         out.fail("C18.bls-eq", "%s: %s is unequal to the explicit set of its own elements" % (k, o), "bls-eq")
                     out.stats["bls_pairs"] += 1
         finally:
